@@ -307,59 +307,101 @@ func sortFacts(repo string) map[string]interface{} {
 	return res
 }
 
-// typeCacheFacts: Type()/Succs() methods that write a cache field: is the write guarded by a nil check?
+// typeCacheFacts: Type() methods (packages ir, ir/constant, ir/metadata) that write a field of their receiver: is every such write inside
+// `if recv.F == nil { ... }` for the SAME field F (fill-once cache)? A cache test of any other form (`if _, ok := recv.Typ.(*T); ok`) lets Type() store on
+// every call: printing then writes shared state (C13) and an observer overwrites what an edit set (C14).
 func typeCacheFacts(repo string) map[string]interface{} {
-	fset, files := parseDir(repo, "ir")
 	type row struct {
 		Recv    string `json:"recv"`
 		Method  string `json:"method"`
 		Guarded bool   `json:"guarded"`
 	}
 	var rows []row
-	for _, f := range files {
-		for _, d := range f.Decls {
-			fd, ok := d.(*ast.FuncDecl)
-			if !ok || fd.Recv == nil || fd.Body == nil || fd.Name.Name != "Type" {
-				continue
-			}
-			recvName := ""
-			if len(fd.Recv.List[0].Names) > 0 {
-				recvName = fd.Recv.List[0].Names[0].Name
-			}
-			writes := false
-			guarded := true
-			var stack []ast.Node
-			ast.Inspect(fd.Body, func(n ast.Node) bool {
-				if n == nil {
-					stack = stack[:len(stack)-1]
-					return true
+	for _, dir := range []string{"ir", "ir/constant", "ir/metadata"} {
+		fset, files := parseDir(repo, dir)
+		for _, f := range files {
+			for _, d := range f.Decls {
+				fd, ok := d.(*ast.FuncDecl)
+				if !ok || fd.Recv == nil || fd.Body == nil || fd.Name.Name != "Type" {
+					continue
 				}
-				stack = append(stack, n)
-				if as, ok := n.(*ast.AssignStmt); ok {
-					for _, l := range as.Lhs {
-						if se, ok := l.(*ast.SelectorExpr); ok {
-							if id, ok := se.X.(*ast.Ident); ok && id.Name == recvName {
-								writes = true
-								g := false
-								for i := len(stack) - 1; i >= 0; i-- {
-									if is, ok := stack[i].(*ast.IfStmt); ok {
-										g = true
-										_ = is
-										break
+				recvName := ""
+				if len(fd.Recv.List[0].Names) > 0 {
+					recvName = fd.Recv.List[0].Names[0].Name
+				}
+				// is `cond` the test `recv.fld == nil`?
+				// a selector path rooted at the receiver (`recv.A.B`): reading it has no effect
+				var recvPath func(e ast.Expr) bool
+				recvPath = func(e ast.Expr) bool {
+					switch x := e.(type) {
+					case *ast.Ident:
+						return x.Name == recvName
+					case *ast.SelectorExpr:
+						return recvPath(x.X)
+					}
+					return false
+				}
+				var nilTest func(cond ast.Expr, fld string) bool
+				nilTest = func(cond ast.Expr, fld string) bool {
+					be, ok := cond.(*ast.BinaryExpr)
+					if ok && be.Op == token.LOR {
+						// `recv.F == nil || recv.F.X != recv.Y`: still a fill-once cache as long as the other disjuncts only compare fields (the store
+						// makes them false); anything else (a call, a type assertion) is not recognised
+						r, ok := be.Y.(*ast.BinaryExpr)
+						return ok && (r.Op == token.NEQ || r.Op == token.EQL) && recvPath(r.X) && recvPath(r.Y) && nilTest(be.X, fld)
+					}
+					if !ok || be.Op != token.EQL {
+						return false
+					}
+					se, ok := be.X.(*ast.SelectorExpr)
+					if !ok || se.Sel.Name != fld {
+						return false
+					}
+					id, ok := se.X.(*ast.Ident)
+					if !ok || id.Name != recvName {
+						return false
+					}
+					n, ok := be.Y.(*ast.Ident)
+					return ok && n.Name == "nil"
+				}
+				writes := false
+				guarded := true
+				var stack []ast.Node
+				ast.Inspect(fd.Body, func(n ast.Node) bool {
+					if n == nil {
+						stack = stack[:len(stack)-1]
+						return true
+					}
+					stack = append(stack, n)
+					if as, ok := n.(*ast.AssignStmt); ok {
+						for _, l := range as.Lhs {
+							if se, ok := l.(*ast.SelectorExpr); ok {
+								if id, ok := se.X.(*ast.Ident); ok && id.Name == recvName {
+									writes = true
+									g := false
+									for i := len(stack) - 1; i >= 1; i-- {
+										// the assignment must be in the THEN branch of the nil test
+										if is, ok := stack[i-1].(*ast.IfStmt); ok && stack[i] == ast.Node(is.Body) && is.Init == nil && nilTest(is.Cond, se.Sel.Name) {
+											g = true
+											break
+										}
 									}
-								}
-								if !g {
-									guarded = false
+									if !g {
+										guarded = false
+									}
 								}
 							}
 						}
 					}
+					return true
+				})
+				if writes {
+					t := src(fset, fd.Recv.List[0].Type)
+					if dir != "ir" {
+						t = dir[strings.LastIndex(dir, "/")+1:] + "." + t
+					}
+					rows = append(rows, row{t, fd.Name.Name, guarded})
 				}
-				return true
-			})
-			if writes {
-				t := src(fset, fd.Recv.List[0].Type)
-				rows = append(rows, row{t, fd.Name.Name, guarded})
 			}
 		}
 	}
